@@ -57,17 +57,26 @@ type invEntity struct {
 func loadLight(repoDir string) ([]*packages.Package, error) {
 	env := append(os.Environ(), "GOFLAGS=-mod=mod", "GOPROXY=off", "GOSUMDB=off", "GOWORK=off", "GOTOOLCHAIN=local")
 	cfg := &packages.Config{Mode: packages.NeedName | packages.NeedFiles | packages.NeedCompiledGoFiles | packages.NeedImports | packages.NeedDeps | packages.NeedTypes | packages.NeedSyntax | packages.NeedTypesInfo | packages.NeedTypesSizes,
-		Dir: repoDir, Env: env, Tests: false}
-	pkgs, err := packages.Load(cfg, "./...")
-	if err != nil {
-		return nil, err
-	}
-	for _, p := range pkgs {
-		if len(p.Errors) > 0 {
-			return nil, fmt.Errorf("%v", p.Errors[0])
+		Dir: repoDir, Env: env, Tests: false, Overlay: SwitchOverlay(repoDir)}
+	for {
+		pkgs, err := packages.Load(cfg, "./...")
+		if err != nil {
+			return nil, err
 		}
+		var first error
+		for _, p := range pkgs {
+			if len(p.Errors) > 0 && first == nil {
+				first = fmt.Errorf("%v", p.Errors[0])
+			}
+		}
+		if first == nil {
+			return pkgs, nil
+		}
+		if cfg.Overlay == nil {
+			return nil, first
+		}
+		cfg.Overlay = nil
 	}
-	return pkgs, nil
 }
 
 func (e *refEntity) id() string { return e.Kind + ":" + e.Pkg + "." + e.Owner + "." + e.Name }
